@@ -29,7 +29,7 @@ static bool check_encode(polyseed_data* s, const pv_mseed* m, pv_mlang* L, unsig
     /* encoding cannot report failure, so the phrase must be the published one whatever the allocator says: every fifth encode
      * runs while the allocator refuses its next request (should the library make any) */
     static unsigned tick; bool armed = (++tick % 5) == 0;
-    if (armed) { pv_w->fail_countdown = 1; PV_COUNT("encode.calls_with_failing_allocator", 1); }
+    if (armed) { pv_arm_some_request(); PV_COUNT("encode.calls_with_failing_allocator", 1); }
     size_t n = pv_api_encode(s, L->lib, coin, g_out);
     pv_w->fail_countdown = 0;
     PV_COUNT("evaluations", 1); PV_COUNT("encode.calls", 1);
